@@ -4,6 +4,7 @@ import (
 	"fmt"
 	"go/types"
 	"math/big"
+	"strings"
 )
 
 // State of the symbolic executor at one program point.
@@ -251,6 +252,9 @@ func (e *Engine) freshNamed(st *State, nm string, t types.Type, depth int) Value
 		}
 		return Var(nm, SInt) // floats etc: opaque
 	case *types.Struct:
+		if depth >= 2 && foreignStruct(t) {
+			return Var(nm+".opaque", SInt)
+		}
 		sv := &StructV{F: map[string]Value{}}
 		for i := 0; i < u.NumFields(); i++ {
 			f := u.Field(i)
@@ -281,6 +285,24 @@ func (e *Engine) freshNamed(st *State, nm string, t types.Type, depth int) Value
 		return &FuncV{Name: nm, Id: Var(nm+".fn", SInt)}
 	}
 	return Var(nm, SInt)
+}
+
+// foreignStruct: named struct types declared outside the module, except the
+// in-memory buffers the executor models.
+func foreignStruct(t types.Type) bool {
+	n, ok := t.(*types.Named)
+	if !ok || n.Obj().Pkg() == nil {
+		return false
+	}
+	p := n.Obj().Pkg().Path()
+	if strings.HasPrefix(p, modulePath) {
+		return false
+	}
+	switch p + "." + n.Obj().Name() {
+	case "bytes.Buffer", "strings.Builder":
+		return false
+	}
+	return true
 }
 
 func (e *Engine) freshIface(st *State, nm string) *IfaceV {
